@@ -287,7 +287,9 @@ def mpirun(np, exe, args=(), timeout=120, env=None, input=None):
 class Ctx:
     def __init__(self, prop, tier, seed, repo):
         self.prop, self.tier, self.seed, self.repo = prop, tier, seed, os.path.abspath(repo)
-        self.build = os.path.join(VERIF, "build", prop)
+        # one build directory per (property, tree under test): concurrent runs against different trees do not collide
+        tag = "" if self.repo == "/repo" else "-" + hashlib.sha1(self.repo.encode()).hexdigest()[:6]
+        self.build = os.path.join(VERIF, "build", prop + tag)
         os.makedirs(self.build, exist_ok=True)
         self.t0 = time.time()
         self.viol = []          # (signature, replay dict)
